@@ -36,6 +36,10 @@ func TestC15AfterSync(t *testing.T) {
 	pbt.Check(t, "C15", afterSyncProp)
 }
 
+var exclDuringSync int32
+
+var debugTiming = os.Getenv("VERIF_C15_DEBUG") != ""
+
 func syncActive(g gor) bool {
 	return strings.Contains(g.text, "downloader.(*Downloader).synchronise") ||
 		strings.Contains(g.text, "downloader.(*Downloader).Synchronise") ||
@@ -122,13 +126,19 @@ func afterSyncProp(c *pbt.C) {
 	hname := "?"
 	defer func() {
 		c.R.Count("ms_case", int(time.Since(tcase).Milliseconds()))
-		c.R.Count("ms_case/"+hname, int(time.Since(tcase).Milliseconds()))
-		c.R.Count("cases/"+hname, 1)
+		if os.Getenv("VERIF_C15_DEBUG") != "" {
+			fmt.Fprintf(os.Stderr, "C15 case %s took %v\n", hname, time.Since(tcase))
+		}
 	}()
 	sh := world()
 	s := &session{c: c, sh: sh, validSet: map[uint64]bool{}, poolOK: map[types.Hash]bool{}, goodBlk: map[types.Hash]bool{}, t0: time.Now()}
 	s.seed = c.Uint64("seed", 0, 1<<32)
 	history := []string{"sync-completed", "sync-failed", "no-sync", "during-sync"}[c.Weighted("history", 5, 2, 2, 2)]
+	if history == "during-sync" && atomic.LoadInt32(&exclDuringSync) == 1 {
+		// the committed known finding of this history was reproduced in this run: left out from now on
+		c.Excluded("C15/message-loop-blocked:deliveries-during-sync")
+		history = "sync-completed"
+	}
 	hname = history
 	s.k = uint64(c.Int("followerHeight", 1, 9))
 	s.tip = s.k + uint64(c.Int("ahead", 2, 5))
@@ -151,13 +161,17 @@ func afterSyncProp(c *pbt.C) {
 	s.pm = protocol.NewProtocolManager(minPeers, s.chainID, s.node.Bridge)
 	s.pm.Start()
 	s.note("history %q: follower at height %d, the hostile peer presents A up to %d, minPeers=%d", history, s.k, s.tip, minPeers)
-	c.R.Count("ms_presetup", int(time.Since(tcase).Milliseconds()))
 	defer func() {
 		t := time.Now()
 		s.teardown()
-		c.R.Count("ms_td_total", int(time.Since(t).Milliseconds()))
+		if os.Getenv("VERIF_C15_DEBUG") != "" {
+			fmt.Fprintf(os.Stderr, "C15 teardown took %v (case so far %v)\n", time.Since(t), time.Since(tcase))
+		}
 	}()
 	defer func() {
+		if os.Getenv("VERIF_C15_DEBUG") != "" {
+			fmt.Fprintf(os.Stderr, "C15 body returned at %v\n", time.Since(tcase))
+		}
 		s.releaseHeld()
 		if traceClass == "all" {
 			fmt.Fprintf(os.Stderr, "---- case\n%s\n", strings.Join(s.tr, "\n"))
@@ -183,7 +197,9 @@ func afterSyncProp(c *pbt.C) {
 	// ---- the earlier synchronisation
 	tPhase := time.Now()
 	phase := func(name string) {
-		c.R.Count("ms_"+name+"/"+history, int(time.Since(tPhase).Milliseconds()))
+		if debugTiming {
+			c.R.Count("ms_"+name+"/"+history, int(time.Since(tPhase).Milliseconds()))
+		}
 		tPhase = time.Now()
 	}
 	phase("setup")
